@@ -96,6 +96,40 @@ def failTwice {α : Type} (msg : String) : PM' α :=
 (`p.opts`) instead of the options it has just parsed. -/
 def storedIntfOpts (_parsed : Options) (parserDefaults : Options) : Options := parserDefaults
 
+/-- does the doc comment found for an object carry a `:convergen` line -/
+def docHasConvergen (st : PState) (obj : ScopeObj) : Bool :=
+  match st.docs.docOn obj.docChain with
+  | some (_, g) => (st.docs.group g).any (fun c => matchConvergen c.text)
+  | none => false
+
+/-- the selection rule of `findConvergenEntries`: an interface declared in the setup file that is
+named `Convergen` or whose doc has a `:convergen` line -/
+def isTargetIntf (intfName : String) (st : PState) (obj : ScopeObj) : Bool :=
+  obj.isInterface && obj.inSetupFile && (obj.name == intfName || docHasConvergen st obj)
+
+/-- what one iteration of the loop of `findConvergenEntries` does -/
+inductive EntryStep where
+  | notTarget
+  | entry (e : IntfEntry) (st : PState)
+  | halt (h : Halt) (st : PState)
+
+def entryStep (env : Env) (sc : Scope) (eng : Engine) (intfName : String) (obj : ScopeObj) (st : PState) :
+    EntryStep :=
+  if !isTargetIntf intfName st obj then .notTarget else
+  let doc := st.docs.docOn obj.docChain
+  let (notations, docs) := match doc with
+    | some (node, g) =>
+      let (ns, d) := st.docs.extract g isNotationLine
+      let d := d.setGroup g []
+      (ns, d.cleanUp node g)
+    | none => ([], st.docs)
+  let st := { st with docs := docs }
+  match parseNotations env sc eng validOpsIntf notations newOptions with
+  | .error msgs => .halt .error { st with stderr := st.stderr ++ msgs ++ msgs }
+  | .panic s => .halt (.panic s) st
+  | .ok res =>
+    .entry { obj := obj, opts := storedIntfOpts res.opts newOptions } { st with stdout := st.stdout ++ res.stdout }
+
 /-- `findConvergenEntries` -/
 def findConvergenEntries (env : Env) (sc : Scope) (eng : Engine) (file : FileFacts) (intfName : String) :
     List ScopeObj → List IntfEntry → PM' (List IntfEntry)
@@ -103,27 +137,10 @@ def findConvergenEntries (env : Env) (sc : Scope) (eng : Engine) (file : FileFac
     if acc.isEmpty then failTwice s!"{file.packagePos}: {intfName} interface not found" st
     else .ok (acc, st)
   | obj :: rest, acc => fun st =>
-    if !obj.isInterface || !obj.inSetupFile then findConvergenEntries env sc eng file intfName rest acc st else
-    let doc := st.docs.docOn obj.docChain
-    let isTarget := obj.name == intfName ||
-      (match doc with
-       | some (_, g) => (st.docs.group g).any (fun c => matchConvergen c.text)
-       | none => false)
-    if !isTarget then findConvergenEntries env sc eng file intfName rest acc st else
-    let (notations, docs) := match doc with
-      | some (node, g) =>
-        let (ns, d) := st.docs.extract g isNotationLine
-        let d := d.setGroup g []
-        (ns, d.cleanUp node g)
-      | none => ([], st.docs)
-    let st := { st with docs := docs }
-    match parseNotations env sc eng validOpsIntf notations newOptions with
-    | .error msgs => .error (.error, { st with stderr := st.stderr ++ msgs ++ msgs })
-    | .panic s => .error (.panic s, st)
-    | .ok res =>
-      let st := { st with stdout := st.stdout ++ res.stdout }
-      findConvergenEntries env sc eng file intfName rest
-        (acc ++ [{ obj := obj, opts := storedIntfOpts res.opts newOptions }]) st
+    match entryStep env sc eng intfName obj st with
+    | .notTarget => findConvergenEntries env sc eng file intfName rest acc st
+    | .entry e st' => findConvergenEntries env sc eng file intfName rest (acc ++ [e]) st'
+    | .halt h st' => .error (h, st')
 
 /-- an entry's method after `parseMethod`, with the doc group it reads its comments from -/
 structure ParsedMethod where
